@@ -87,6 +87,16 @@ CHECKS = {
    text="Winding repair is a BFS over face adjacency with a per-body volume test: its failures depend on which subset of faces is wrong and on traversal order, so every one of the 2^F subsets (F <= 12; per body for larger meshes) is re-wound and repaired in both multibody modes with and without normals read beforehand; every single face, pair of faces and quad is removed and refilled; subdivision is run on all faces and on every face subset, size-bounded subdivision over bounds x iteration caps, Loop subdivision twice. Oracles: vertices byte-identical, unoriented triangle multiset, consistent winding and positive volume per body by counting, exact area / volume (dyadic midpoints), Euler number.",
    note="fill_holes is demanded for triangle / quad holes with simple boundaries on meshes with >= 3 faces (its documented domain).",
    design="3.C18"),
+ "C15": dict(level="exploration", engine="E2",
+   technique="complete small parameter grids x placements for every creation function with counting / exact tessellation oracles; exhaustive edit histories (depth 2, 3 in thorough) on primitives with a differential oracle (freshly constructed primitive)",
+   text="Creation defects are selected by parity / minimum values of section counts, partial angles, hole counts, engines and by the sign of the placement determinant; all of them lie on small grids that are enumerated completely (sections 3..12 and 32, 48 signed-permutation placements plus a generic rigid one, segment forms). Validity is decided by my own counting and signed volume, measures by exact formulas of the inscribed n-gon tessellation (prism, pyramid, revolved polygon by Green's theorem) and inscribed + convergent for spheres, capsules and tori, placement by comparing with the untransformed solid moved by the matrix. 'A primitive's mesh reflects its current parameters' is decided on every edit history of bounded length (including edits of a few 1e-6) against a primitive freshly built from the current parameter values.",
+   note="Known finding: extrude_polygon with earcut on holes with collinear edges (T-junction triangulation -> misplaced walls).",
+   design="3.C15"),
+ "C17": dict(level="model_checking", engine="E1",
+   technique="exhaustive two-object histories: object states (incl. read-then-edited-in-place before copying) x copy routes x every edit (every ordered pair in thorough) on either side, snapshot comparison plus a structural aliasing scan of the two object graphs",
+   text="Aliasing between a copy and its source only shows when one side is edited after (or just before) copying and the other side is read afterwards. For 26 object states of all geometry kinds and the three copy routes, the copy's snapshot must equal the source's, and after every edit of the alphabet on either side a fresh snapshot of the other side must equal its pre-edit value; independently every mutable object reachable from both objects is reported with its attribute path.",
+   note="Known finding: copy.copy(mesh) shares cached mutable objects (MassProperties, sparse matrices). Read-only shared arrays and opaque third-party objects are not counted as mutable state.",
+   design="3.C17"),
 }
 
 NA = {}
